@@ -4,6 +4,7 @@ package c17
 import (
 	"fmt"
 	"strings"
+	"sync"
 	"testing"
 
 	"github.com/whoisnian/glb/util/fsutil"
@@ -263,5 +264,49 @@ func FuzzResolve(f *testing.F) {
 		if msg := check(base, u); msg != "" {
 			t.Fatal(msg)
 		}
+	})
+}
+
+// TestConcurrentCallers: ResolveUrlPath is a plain function of its arguments; callers on different goroutines must
+// each get the answer for their own pair (run under the race detector).
+func TestConcurrentCallers(t *testing.T) {
+	rt.Check(t, 30, 2000, func(t *rapid.T) {
+		g := rapid.IntRange(2, 8).Draw(t, "goroutines")
+		type pair struct{ base, u string }
+		work := make([][]pair, g)
+		for i := range work {
+			n := rapid.IntRange(10, 60).Draw(t, "n")
+			for k := 0; k < n; k++ {
+				pr := pair{genBase().Draw(t, "base"), genURL().Draw(t, "url")}
+				if k%2 == 1 && len(pr.u) > 0 && pr.u[0] == '/' {
+					pr.u = pr.u[1:] // plenty of paths without a leading slash
+				}
+				work[i] = append(work[i], pr)
+			}
+		}
+		msgs := make([]string, g)
+		var wg sync.WaitGroup
+		for i := range work {
+			wg.Add(1)
+			go func(i int) {
+				defer wg.Done()
+				for round := 0; round < 8 && msgs[i] == ""; round++ {
+					for _, pr := range work[i] {
+						if m := check(pr.base, pr.u); m != "" {
+							msgs[i] = m
+							break
+						}
+					}
+				}
+			}(i)
+		}
+		wg.Wait()
+		for _, m := range msgs {
+			if m != "" {
+				t.Fatalf("with %d concurrent callers: %s", g, m)
+			}
+		}
+		ev.Label("concurrent_callers")
+		ev.Case(true, ev.Hash("conc", fmt.Sprint(work)), func() string { return fmt.Sprintf("%d goroutines resolving %d pairs each, 8 rounds", g, len(work[0])) })
 	})
 }
